@@ -3,8 +3,12 @@ import CashewsVerif.Lemmas.TxFaultLocks
 C16 — a failing backend never leaves a task stuck in a transaction or locks held.
 
 Every theorem is quantified over EVERY fault oracle `cfg.fails : Nat → Bool` (any number of failing commands,
-anywhere), every mode / timeout / retry count / set-iteration order (`cfg`), every body (any length, any
-number of backends and keys, ending normally or by raising) and every starting world outside a transaction.
+anywhere), EVERY environment `cfg.env : Nat → List (backend × lock key)` (which foreign lock holders — other open
+transactions — release their locks just before which command of this task: before the block's first command,
+between two attempts of a blocked `_lock_updates`, during commit / rollback, never), every duration `cfg.stepDt`
+of a lock-step, every mode / timeout / retry count / set-iteration order (`cfg`), every body (any length, any
+number of backends and keys, single- and multi-key writes, ending normally or by raising) and every starting
+world outside a transaction (in particular: any set of lock keys held by foreign owners).
 Property theorems only; helper lemmas live in `Lemmas/TxFault*.lean`, the model in `Model/TxFault.lean`.
 -/
 namespace CashewsVerif.Props.C16
@@ -84,6 +88,25 @@ theorem locks_released_or_self_failed (cfg : Cfg) (body : List BodyCmd) (w : FWo
     simp only [Bool.false_eq_true, if_false] at he ⊢
     exact key _ (commitLoop_RExit cfg tx.backs w2) (commitLoop_cov cfg w.counter tx.backs w2 hcnt hcov) he
 
+/-- **… and that stays so whatever happens to the foreign locks afterwards**: once the block has been left nothing
+of this transaction is still waiting for a lock (acquisition is sequential: a blocked `_lock_updates` has obtained
+its lock or raised before the next command starts), so when other holders release their locks LATER (any list of
+release events after the block) still every entry carrying this transaction's token is one whose own `unlock`,
+issued during the block, was made to fail. -/
+theorem locks_released_or_self_failed_after_release (cfg : Cfg) (body : List BodyCmd) (w : FWorld)
+    (h : w.ctx = none) (hm : NoMine w) (later : List (Nat × Nat)) :
+    ∀ b lk e, alLookup (envRel later (runBlock cfg body w).2.locks) (b, lk) = some e → e.mine = true →
+      (∃ i, w.counter ≤ i ∧ i < (runBlock cfg body w).2.counter ∧ cfg.fails i = true ∧
+        (⟨i, b, .unlock lk, true⟩ : Ev) ∈ (runBlock cfg body w).2.log) ∧
+      (∃ d, e.dl = some d ∧ d ≤ (runBlock cfg body w).2.now + cfg.timeout) :=
+  fun b lk e he hmine => locks_released_or_self_failed cfg body w h hm b lk e (envRel_sub _ _ _ _ he) hmine
+
+/-- the environment never releases this transaction's own locks (it cannot be blamed for a missing entry, and
+the theorems above are not vacuous because "somebody else cleaned up") -/
+theorem env_keeps_own_locks (later : List (Nat × Nat)) (w : FWorld) (key : Nat × Nat) (e : LEntry)
+    (he : alLookup w.locks key = some e) (hmine : e.mine = true) :
+    alLookup (envRel later w.locks) key = some e := envRel_mine later w.locks key e he hmine
+
 /-- corollary: if no `unlock` command of this block was made to fail, nothing of the transaction's locks is left -/
 theorem no_lock_left_without_unlock_fault (cfg : Cfg) (body : List BodyCmd) (w : FWorld)
     (h : w.ctx = none) (hm : NoMine w)
@@ -153,7 +176,7 @@ theorem fault_never_silent (cfg : Cfg) (body : List BodyCmd) (w : FWorld) (h : w
 def failsAt (l : List Nat) : Nat → Bool := fun i => l.contains i
 
 /-- locked mode, timeout 16 ticks, 5 lock attempts -/
-def demoCfg (faults : List Nat) : Cfg := ⟨.locked, 16, 5, [], failsAt faults⟩
+def demoCfg (faults : List Nat) : Cfg := ⟨.locked, 16, 5, [], failsAt faults, 0, fun _ => []⟩
 
 /-- two backends: writes on 0 (set, incr, delete) and on 1 (set with a TTL) -/
 def demoBody : List BodyCmd := [.set 0 0 1 none, .set 1 0 2 (some 8), .incr 0 1, .delete 0 2]
@@ -209,5 +232,57 @@ example :
     let r := runBlock (demoCfg []) [.set 0 0 1 none, .set 0 1 2 none] w0
     (match r.1 with | .err .locked => true | _ => false) = true ∧
     r.2.locks = [((0, 2), ⟨false, none⟩)] ∧ r.2.counter = 7 ∧ r.2.ctx = none := by decide +kernel
+
+/-! #### multi-key commands and a contending holder that releases its lock at a chosen moment -/
+
+/-- locked mode, timeout 4, 3 lock attempts, a lock-step takes 1; the holder of lock key 2 of backend 0 releases it
+just before command `rel` -/
+def contCfg (faults : List Nat) (rel : Nat) : Cfg :=
+  ⟨.locked, 4, 3, [], failsAt faults, 1, fun i => if i = rel then [(0, 2)] else []⟩
+
+/-- `set_many` over keys 0, 1, 2 (lock keys 1, 2, 3), then a `delete_many` -/
+def contBody : List BodyCmd := [.setMany 0 [(0, 1), (1, 2), (2, 3)] none, .delMany 0 [2, 3]]
+
+/-- lock key 2 is held by another open transaction -/
+def contWorld : FWorld := { demoWorld with locks := [((0, 2), ⟨false, none⟩)] }
+
+example : contWorld.ctx = none ∧ NoMine contWorld :=
+  ⟨rfl, fun key e h => by
+    simp only [contWorld, alLookup] at h
+    split at h
+    · cases h; rfl
+    · cases h⟩
+
+/-- never released: `set_lock` of key 2 is answered False three times (commands 1-3), `LockedError`; the lock taken
+before (key 1) is released by the rollback (command 4), the foreign entry is untouched, three lock-steps passed -/
+example :
+    let r := runBlock (contCfg [] 99) contBody contWorld
+    (match r.1 with | .err .locked => true | _ => false) = true ∧
+    r.2.locks = [((0, 2), ⟨false, none⟩)] ∧ r.2.counter = 5 ∧ r.2.now = 3 ∧ r.2.ctx = none ∧
+    r.2.data = demoWorld.data := by decide +kernel
+
+/-- released between the first and the second attempt (before command 2): the second attempt succeeds, with a
+lease counted from that moment; all of `set_many` and `delete_many` is applied by the commit, every lock is released -/
+example :
+    let r := runBlock (contCfg [] 2) contBody contWorld
+    (match r.1 with | .ok _ => true | _ => false) = true ∧ r.2.locks = [] ∧ r.2.counter = 11 ∧ r.2.now = 1 ∧
+    (⟨1, 0, .setLock 2 4, false⟩ : Ev) ∈ r.2.log ∧ (⟨2, 0, .setLock 2 4, false⟩ : Ev) ∈ r.2.log ∧
+    r.2.data = [((0, 0), ⟨1, none⟩), ((0, 1), ⟨2, none⟩)] := by decide +kernel
+
+/-- the witness of the class: the holder releases key 2 while the multi-key command waits for it, THEN the
+`set_lock` of the next key (command 3) fails: both locks taken so far (one of them after waiting) are released by
+the rollback, nothing is applied, nothing is left — also after any later release -/
+example :
+    let r := runBlock (contCfg [3] 2) contBody contWorld
+    (match r.1 with | .err (.fault 3) => true | _ => false) = true ∧ r.2.locks = [] ∧ r.2.counter = 6 ∧
+    r.2.data = demoWorld.data ∧ r.2.ctx = none ∧ envRel [(0, 2), (0, 3)] r.2.locks = [] := by decide +kernel
+
+/-- the fault hits a retry of the blocked acquisition itself (command 2) and the unlock of the lock taken before
+(command 3) fails too: that entry — and only that — is left, and a later release of the foreign lock does not change it -/
+example :
+    let r := runBlock (contCfg [2, 3] 99) contBody contWorld
+    (match r.1 with | .err (.fault 3) => true | _ => false) = true ∧
+    r.2.locks = [((0, 2), ⟨false, none⟩), ((0, 1), ⟨true, some 4⟩)] ∧
+    envRel [(0, 2)] r.2.locks = [((0, 1), ⟨true, some 4⟩)] ∧ r.2.ctx = none := by decide +kernel
 
 end CashewsVerif.Props.C16
